@@ -796,7 +796,8 @@ VIRT_OPS = ('{[op |-> "length"], [op |-> "type"], [op |-> "tojson"], [op |-> "at
 # depth questions and reductions of lazily sliced virtual arrays (records of one shape per set: TLC compares records of a set)
 VIRT_OPS_DEPTH = ('{[op |-> "depths", sk |-> "", a |-> 0, b |-> 0, axis |-> 0], [op |-> "tojson", sk |-> "", a |-> 0, b |-> 0, axis |-> 0]} \\cup '
                   '{[op |-> "slice_depths", sk |-> k, a |-> 0, b |-> 2, axis |-> 0] : k \\in {"newaxis", "ellipsis", "range"}} \\cup '
-                  '{[op |-> "slice_sum", sk |-> "newaxis", a |-> 0, b |-> 0, axis |-> x] : x \\in {0, 1, -1}}')
+                  '{[op |-> "slice_sum", sk |-> "newaxis", a |-> 0, b |-> 0, axis |-> x] : x \\in {0, 1, -1}} \\cup '
+                  '{[op |-> "slice_json", sk |-> "range", a |-> p[1], b |-> p[2], axis |-> 0] : p \\in {<<-2, 99999>>, <<99999, -1>>, <<1, 99>>, <<-9, 2>>}}')
 
 
 def run_C18(ctx):
